@@ -42,6 +42,29 @@ pub fn check(bc: &BuildCase, obs: &mut Obs) -> Result<(), Fail> {
         check_text(&t2, &vals, n, bc).map_err(|f| Fail { sig: format!("recycled_copy:{}", f.sig), msg: format!("rendering of a clone_from copy (destination held a version-40 symbol): {}", f.msg) })?;
         obs.label("recycled_copy_rendered");
     }
+    if bc.hash() % 3 == 0 {
+        // the matrix is a public, editable value: after modules are changed (through the `data` field, through
+        // `qr[row][col]`, or both) the rendering of the SAME object - and of a clone of it - shows the changed matrix
+        let mut q2 = built.qr.clone();
+        let mut v2 = vals.clone();
+        let h = bc.hash();
+        for k in 0..(1 + h % 5) as usize {
+            let i = ((h >> 8) as usize).wrapping_mul(k * 2 + 1).wrapping_add(k * 7919) % (n * n);
+            let now = !v2[i];
+            v2[i] = now;
+            let m = fast_qr::Module::data(if now { fast_qr::Module::DARK } else { fast_qr::Module::LIGHT });
+            if (h >> 5) % 2 == 0 || k % 2 == 1 {
+                q2.data[i] = m;
+            } else {
+                q2[i / n][i % n] = m;
+            }
+        }
+        let t3 = catch(|| q2.to_str()).map_err(|p| Fail { sig: panic_sig(&p), msg: format!("to_str after editing modules panicked: {} ({:?})", p, bc) })?;
+        check_text(&t3, &v2, n, bc).map_err(|f| Fail { sig: format!("edited:{}", f.sig), msg: format!("rendering after modules of the same object were edited: {}", f.msg) })?;
+        let t4 = catch(|| q2.clone().to_str()).map_err(|p| Fail { sig: panic_sig(&p), msg: format!("to_str on a clone of an edited symbol panicked: {} ({:?})", p, bc) })?;
+        check_text(&t4, &v2, n, bc).map_err(|f| Fail { sig: format!("edited_clone:{}", f.sig), msg: format!("rendering of a clone of an edited symbol: {}", f.msg) })?;
+        obs.label("rendered_again_after_edit");
+    }
     let lines: Vec<&str> = text.split('\n').collect();
     obs.label(&format!("band:{}", crate::gens::version_band(version_from_size(n).unwrap_or(1))));
     obs.nontrivial(bc.hash());
